@@ -3,7 +3,7 @@
 //   c02probe <seed> <rounds>        reads op lines from stdin:
 //     all                 call every factory entry below
 //     call <key>          call one entry (all its instances)
-//     grow <kind> <n>     C09 growth history: kind = scope|plist|xlist|enum|bases ; add n members, observe after each
+//     grow <kind> <n> [salt]   C09 growth history: kind = scope|plist|xlist|enum|bases ; add n members, observe after each
 //     list                print the keys of all entries (one `E <key>` line each)
 //
 // Every entry calls ONE factory function of the implementation with operands drawn from pools of pairwise distinct
@@ -331,7 +331,7 @@ namespace {
             const std::size_t before = c.ob.count();
             Run r{c, e.key, inst, false};
             r.attempt = attempt;
-            if (attempt < 6) {
+            if (attempt < 12) {
                // dry check: a unified result that existed before this call would not show the objects created with it
                std::ostringstream sink;
                auto* old = std::cout.rdbuf(sink.rdbuf());
@@ -341,8 +341,10 @@ namespace {
                if (stale) continue;
                std::cout << sink.str();
             }
-            else
-               e.body(r);
+            else {
+               std::cout << "# skipped " << e.key << ' ' << inst << " (every operand choice gave a node that existed before)\n";
+               break;
+            }
             need = std::max(need, r.need);
             Run again{c, e.key, inst, true, r.result};
             again.attempt = attempt;
@@ -373,6 +375,14 @@ void Ctx::build_pools()
    for (auto* k : {&L.false_value(), &L.true_value(), &L.nullptr_value(), &L.default_value(), &L.delete_value()})
       std::cout << "O " << ob.observe(*k).line() << '\n';
    std::cout << "O " << ob.observe(L.nullptr_value().type()).line() << '\n';
+   // every built-in type accessor of the Lexicon:  B <accessor> <node> <its type()>
+#define BUILTIN(ACC) std::cout << "B " #ACC " " << ob.show(L.ACC()) << ' ' << verif::guard([&] { return ob.show(L.ACC().type()); }) << '\n';
+   BUILTIN(void_type) BUILTIN(bool_type) BUILTIN(char_type) BUILTIN(schar_type) BUILTIN(uchar_type) BUILTIN(wchar_t_type)
+   BUILTIN(char8_t_type) BUILTIN(char16_t_type) BUILTIN(char32_t_type) BUILTIN(short_type) BUILTIN(ushort_type) BUILTIN(int_type)
+   BUILTIN(uint_type) BUILTIN(long_type) BUILTIN(ulong_type) BUILTIN(long_long_type) BUILTIN(ulong_long_type) BUILTIN(float_type)
+   BUILTIN(double_type) BUILTIN(long_double_type) BUILTIN(ellipsis_type) BUILTIN(typename_type) BUILTIN(class_type) BUILTIN(union_type)
+   BUILTIN(enum_type) BUILTIN(namespace_type)
+#undef BUILTIN
 
    std::mt19937_64 g{mix(seed, 77)};
    impl::Region* global = unit.global_region();
@@ -384,12 +394,26 @@ void Ctx::build_pools()
    for (int i = 4; i < 6; ++i) pool("Type", types, static_cast<const ipr::Type&>(L.get_reference(*base[i])));
    pool("Type", types, static_cast<const ipr::Type&>(L.get_rvalue_reference(*base[6])));
    pool("Type", types, static_cast<const ipr::Type&>(L.get_array(*base[7], *L.make_phantom())));
-   pool("Type", types, static_cast<const ipr::Type&>(*L.make_class(*global)));
-   pool("Type", types, static_cast<const ipr::Type&>(*L.make_enum(*global, ipr::Enum::Kind::Scoped)));
-   pool("Type", types, static_cast<const ipr::Type&>(*L.make_union(*global)));
+   // (every pool type is compound, so that its own type() is `typename`: a node whose type is BORROWED from a Type operand
+   //  is then indistinguishable from the constant in every instance, which keeps the classification seed-independent)
+   const ipr::Type& klass = *L.make_class(*global);
+   pool("Type", types, static_cast<const ipr::Type&>(L.get_pointer(klass)));
+   pool("Type", types, static_cast<const ipr::Type&>(L.get_reference(*L.make_enum(*global, ipr::Enum::Kind::Scoped))));
+   pool("Type", types, static_cast<const ipr::Type&>(L.get_pointer(*L.make_union(*global))));
    pool("Type", types, static_cast<const ipr::Type&>(L.get_pointer(L.get_pointer(*base[8]))));
    pool("Type", types, static_cast<const ipr::Type&>(L.get_auto()));
-   pool("Type", types, static_cast<const ipr::Type&>(L.get_ptr_to_member(*types[8], *base[9])));
+   pool("Type", types, static_cast<const ipr::Type&>(L.get_ptr_to_member(klass, *base[9])));
+   // a universe of further pairwise distinct compound types: EVERY typed operand (expression, declaration, block, ...) gets a
+   // type of its own, different from every Type operand, so that "the type of operand i" is never also "the type of operand j"
+   std::vector<const ipr::Type*> tu;
+   for (int i = 0; i < 10; ++i) tu.push_back(&L.get_rvalue_reference(L.get_pointer(*base[i])));
+   for (int i = 0; i < 10; ++i) tu.push_back(&L.get_pointer(L.get_pointer(L.get_pointer(*base[i]))));
+   for (int i = 0; i < 10; ++i) tu.push_back(&L.get_reference(L.get_pointer(L.get_pointer(*base[i]))));
+   for (int i = 0; i < 10; ++i) tu.push_back(&L.get_ptr_to_member(klass, L.get_pointer(*base[i])));
+   for (int i = 0; i < 10; ++i) tu.push_back(&L.get_pointer(L.get_ptr_to_member(klass, L.get_pointer(*base[i]))));
+   for (int i = 0; i < 10; ++i) tu.push_back(&L.get_reference(L.get_ptr_to_member(klass, L.get_pointer(*base[i]))));
+   std::size_t next_tu = 0;
+   auto fresh_type = [&]() -> const ipr::Type& { return *tu.at(next_tu++); };
    // strings, identifiers, names
    for (int i = 0; i < 8; ++i) pool("String", strings, L.get_string(word(g)));
    for (int i = 0; i < 8; ++i) pool("Identifier", idents, L.get_identifier(word(g)));
@@ -399,11 +423,11 @@ void Ctx::build_pools()
    pool("Name", names, static_cast<const ipr::Name&>(L.get_ctor_name(*types[8])));
    pool("Name", names, static_cast<const ipr::Name&>(L.get_dtor_name(*types[8])));
    // expressions: every one has a readable type, all types distinct
-   for (int i = 0; i < 5; ++i) pool("Expr", exprs, static_cast<const ipr::Expr&>(*L.make_phantom(*types[i])));
-   for (int i = 5; i < 8; ++i) pool("Expr", exprs, static_cast<const ipr::Expr&>(*L.make_literal(*types[i], word(g))));
-   for (int i = 8; i < 10; ++i) pool("Expr", exprs, static_cast<const ipr::Expr&>(*L.make_id_expr(*names[i - 8], *types[i])));
-   for (int i = 10; i < 12; ++i) pool("Expr", exprs, static_cast<const ipr::Expr&>(*L.make_eclipsis(*types[i])));
-   for (int i = 0; i < 4; ++i) pool("Literal", literals, static_cast<const ipr::Literal&>(*L.make_literal(*types[i], word(g))));
+   for (int i = 0; i < 5; ++i) pool("Expr", exprs, static_cast<const ipr::Expr&>(*L.make_phantom(fresh_type())));
+   for (int i = 5; i < 8; ++i) pool("Expr", exprs, static_cast<const ipr::Expr&>(*L.make_literal(fresh_type(), word(g))));
+   for (int i = 8; i < 10; ++i) pool("Expr", exprs, static_cast<const ipr::Expr&>(*L.make_id_expr(*names[i - 8], fresh_type())));
+   for (int i = 10; i < 12; ++i) pool("Expr", exprs, static_cast<const ipr::Expr&>(*L.make_eclipsis(fresh_type())));
+   for (int i = 0; i < 4; ++i) pool("Literal", literals, static_cast<const ipr::Literal&>(*L.make_literal(fresh_type(), word(g))));
    // products, sums, sequences of types, function and forall types
    for (int i = 0; i < 6; ++i) {
       warehouses.emplace_back();
@@ -418,17 +442,17 @@ void Ctx::build_pools()
       w.push_back(*base[i + 4]); w.push_back(*types[i]);
       pool("Sum", sums, L.get_sum(w));
    }
-   for (int i = 0; i < 4; ++i) {
+   for (int i = 0; i < 16; ++i) {
       warehouses.emplace_back();
       auto& w = warehouses.back();
-      w.push_back(*types[i + 3]); w.push_back(*base[i]); w.push_back(*types[i]);
+      w.push_back(*types[(i + 3) % 12]); w.push_back(*base[i % 10]); w.push_back(*types[(5 * i) % 12]); if (i >= 8) w.push_back(*base[(i + 3) % 10]);
       type_seqs.push_back(&w.rep());
       std::cout << "P Sequence<Type> " << ob.show(static_cast<const ipr::Sequence<ipr::Type>&>(w.rep())) << '\n';
    }
-   for (int i = 0; i < 4; ++i) {
+   for (int i = 0; i < 16; ++i) {
       warehouses.emplace_back();
       auto& w = warehouses.back();
-      w.push_back(*base[9 - i]); w.push_back(*types[2 * i]); if (i & 1) w.push_back(*types[i + 6]);
+      w.push_back(*base[9 - i % 10]); w.push_back(*types[(2 * i) % 12]); if (i & 1) w.push_back(*types[(i + 6) % 12]); if (i >= 8) w.push_back(*base[i % 10]);
       whs.push_back(&w);
       std::cout << "P Warehouse<Type> " << ob.show(static_cast<const ipr::Sequence<ipr::Type>&>(w.rep())) << '\n';
    }
@@ -443,33 +467,33 @@ void Ctx::build_pools()
    // declarations
    impl::Region* declreg = global->make_subregion();
    for (int i = 0; i < 4; ++i) {
-      auto* v = declreg->declare_var(*idents[i], *types[i]);
+      auto* v = declreg->declare_var(*idents[i], fresh_type());
       pool("Var", vars, static_cast<const ipr::Var&>(*v));
       pool("Decl", decls, static_cast<const ipr::Decl&>(*v));
    }
-   pool("Decl", decls, static_cast<const ipr::Decl&>(*declreg->declare_field(*names[4], *types[4])));
-   pool("Decl", decls, static_cast<const ipr::Decl&>(*declreg->declare_type(*names[5], *types[5])));
+   pool("Decl", decls, static_cast<const ipr::Decl&>(*declreg->declare_field(*names[4], fresh_type())));
+   pool("Decl", decls, static_cast<const ipr::Decl&>(*declreg->declare_type(*names[5], fresh_type())));
    for (int i = 0; i < 4; ++i)
       pool("Template", templates, static_cast<const ipr::Template&>(*declreg->declare_primary_template(*idents[i], *foralls[i])));
    {
       impl::Mapping* m = L.make_mapping(*global, Mapping_level{1});
-      for (int i = 0; i < 4; ++i) pool("Parameter", parms, static_cast<const ipr::Parameter&>(*m->param(*idents[i + 4], *types[i])));
+      for (int i = 0; i < 4; ++i) pool("Parameter", parms, static_cast<const ipr::Parameter&>(*m->param(*idents[i + 4], fresh_type())));
    }
    // compound expressions used as operands of a precise type
-   for (int i = 0; i < 6; ++i) pool("Scope_ref", scope_refs, static_cast<const ipr::Scope_ref&>(*L.make_scope_ref(*exprs[i], *exprs[i + 1], *types[i])));
+   for (int i = 0; i < 6; ++i) pool("Scope_ref", scope_refs, static_cast<const ipr::Scope_ref&>(*L.make_scope_ref(*exprs[i], *exprs[i + 1], fresh_type())));
    for (int i = 0; i < 4; ++i) {
       auto* xl = L.make_expr_list();
       for (int j = 0; j <= i; ++j) xl->push_back(exprs[(i + j) % exprs.size()]);
       pool("Expr_list", expr_lists, static_cast<const ipr::Expr_list&>(*xl));
    }
-   for (int i = 0; i < 4; ++i) pool("Enclosure", enclosures, static_cast<const ipr::Enclosure&>(*L.make_enclosure(Delimiter::Paren, *exprs[i], *types[i + 1])));
-   for (int i = 0; i < 4; ++i) pool("Construction", constructions, static_cast<const ipr::Construction&>(*L.make_construction(*types[i + 2], *enclosures[i])));
+   for (int i = 0; i < 4; ++i) pool("Enclosure", enclosures, static_cast<const ipr::Enclosure&>(*L.make_enclosure(Delimiter::Paren, *exprs[i], fresh_type())));
+   for (int i = 0; i < 4; ++i) pool("Construction", constructions, static_cast<const ipr::Construction&>(*L.make_construction(fresh_type(), *enclosures[i])));
    for (int i = 0; i < 4; ++i) {
-      auto* b = L.make_block(*regions[i], *types[i]);
+      auto* b = L.make_block(*regions[i], fresh_type());
       pool("Block", blocks, static_cast<const ipr::Block&>(*b));
       pool("Stmt", stmts, static_cast<const ipr::Stmt&>(*b));
    }
-   for (int i = 0; i < 2; ++i) pool("Stmt", stmts, static_cast<const ipr::Stmt&>(*L.make_expr_stmt(*exprs[i])));
+   for (int i = 4; i < 6; ++i) pool("Stmt", stmts, static_cast<const ipr::Stmt&>(*L.make_block(*regions[i], fresh_type())));
    // tokens, attributes
    for (int i = 0; i < 6; ++i) {
       Source_location loc;
@@ -677,8 +701,9 @@ static void register_type_entries()
    ENTRY("type_factory::get_as_type(Expr,Transfer)#natural", auto& e = r.E(); auto& x = natural(r); r.done(L.get_as_type(e, x));)
    ENTRY("type_factory::get_array(Type,Expr)", auto& t = r.T(); auto& e = r.E(); r.done(L.get_array(t, e));)
    ENTRY("type_factory::get_qualified(Qualifiers,Type)", auto q = r.Q(); auto& t = r.T(); r.done(L.get_qualified(q, t));)
-   ENTRY("type_factory::get_qualified(Qualifiers,Type)#merge", auto q = r.Q(); auto& t = r.c.types.at((r.inst * 5 + 1) % r.c.types.size());
-         auto& inner = L.get_qualified(Qualifiers{static_cast<std::uintptr_t>(1 + (r.inst * 3) % 7)}, *t);
+   ENTRY("type_factory::get_qualified(Qualifiers,Type)#merge", auto q = r.Q(); auto& t = r.c.types.at(r.gen(77)() % r.c.types.size());
+         const auto qv = static_cast<std::uintptr_t>(q);           // the operand's own qualifiers never contain the new ones
+         auto& inner = L.get_qualified(Qualifiers{qv == 7 ? std::uintptr_t{2} : (((qv << 1) | (qv >> 2)) & 7)}, *t);
          r.extra(static_cast<const ipr::Type&>(inner), "Type");
          r.done(L.get_qualified(q, inner));)
    ENTRY("type_factory::get_decltype(Expr)", auto& e = r.E(); r.done(L.get_decltype(e));)
@@ -788,8 +813,8 @@ static void register_container_entries()
    UDT_DECL(declare_secondary_template, "Forall", FA)
    ENTRY("Class::declare_base(Type)", auto& preg = r.R(); auto& k = r.fresh(*L.make_class(preg), "Class"); auto& t = r.T(); r.done(*k.declare_base(t));)
    ENTRY("Enum::add_member(Name)", auto& preg = r.R(); auto& e = r.fresh(*L.make_enum(preg, ipr::Enum::Kind::Scoped), "Enum"); auto& n = r.N(); r.done(*e.add_member(n));)
-   ENTRY("Parameter_list::add_member(Name,Type)", auto& reg = r.R(); auto l = r.LVL(); auto& m = *L.make_mapping(reg, l);
-         auto& pl = r.fresh(m.inputs, "Parameter_list"); auto& n = r.N(); auto& t = r.T(); r.done(*pl.add_member(n, t));)
+   ENTRY("Parameter_list::add_member(Name,Type)", auto& reg = r.R(); auto l = r.LVL(); auto& m = r.fresh(*L.make_mapping(reg, l), "Mapping");
+         r.extra(static_cast<const ipr::Parameter_list&>(m.inputs), "Parameter_list"); auto& n = r.N(); auto& t = r.T(); r.done(*m.inputs.add_member(n, t));)
    ENTRY("Mapping::param(Name,Type)", auto& reg = r.R(); auto l = r.LVL(); auto& m = r.fresh(*L.make_mapping(reg, l), "Mapping");
          auto& n = r.N(); auto& t = r.T(); r.done(*m.param(n, t));)
    ENTRY("Block::new_handler(Name,Type)", auto& reg = r.R(); auto& b = r.fresh(*L.make_block(reg), "Block"); auto& n = r.N(); auto& t = r.T();
@@ -976,9 +1001,10 @@ int main(int argc, char** argv)
       }
       else if (op == "grow") {
          std::string kind;
-         int n = 0;
-         is >> kind >> n;
-         grow(c, kind, n, growths++);
+         int n = 0, salt = -1;
+         is >> kind >> n >> salt;
+         grow(c, kind, n, salt >= 0 ? salt : growths);
+         ++growths;
       }
       else if (not op.empty())
          std::cout << "X bad-op " << op << '\n';
